@@ -24,6 +24,9 @@ func init() {
 			"Not covered: actual goroutine schedules (io.Pipe and sync.WaitGroup semantics are trusted).",
 		Run: runC12,
 	})
+	mutant(&Mutant{Name: "c12-minifier-sniffed-from-first-chunk", Property: "C12", File: "minify.go",
+		Old: "\t\tif mediatype := w.ResponseWriter.Header().Get(\"Content-Type\"); mediatype != \"\" {\n\t\t\tw.mediatype = mediatype\n\t\t}\n", New: "\t\tif mediatype := w.ResponseWriter.Header().Get(\"Content-Type\"); mediatype != \"\" {\n\t\t\tw.mediatype = mediatype\n\t\t} else if w.mediatype == \"\" {\n\t\t\tw.mediatype = http.DetectContentType(b)\n\t\t}\n",
+		Rule: "R12.7", Construct: "independent of the chunk"})
 	mutant(&Mutant{Name: "c12-gathering-writer-lets-large-chunks-overtake", Property: "C12", File: "minify.go",
 		Old: "type writer struct {\n\tio.WriteCloser\n", New: "type writer struct {\n\tio.WriteCloser\n\tbuf    []byte\n",
 		Old2: "// Close must be called when writing has finished. It returns the error from the minifier.\nfunc (z *writer) Close() error {\n", New2: "func (z *writer) Write(b []byte) (int, error) {\n\tif 4096 <= len(b) {\n\t\treturn z.WriteCloser.Write(b)\n\t}\n\tif cap(z.buf) < len(z.buf)+len(b) {\n\t\tif _, err := z.WriteCloser.Write(z.buf); err != nil {\n\t\t\treturn 0, err\n\t\t}\n\t\tz.buf = z.buf[:0]\n\t}\n\tz.buf = append(z.buf, b...)\n\treturn len(b), nil\n}\n\n// Close must be called when writing has finished. It returns the error from the minifier.\nfunc (z *writer) Close() error {\n",
@@ -67,6 +70,7 @@ func runC12(c *Ctx) {
 	c.r124(pk)
 	c.r125(pk)
 	c.r126(pk)
+	c.r127(pk)
 }
 
 // R12.1
@@ -671,4 +675,92 @@ func (c *Ctx) r126(pk *packages.Package) {
 		}
 	}
 	c.R.Exists(rule, "gathering Write methods in the root package", "-", fmt.Sprintf("%d pass-through site(s) examined", n))
+}
+
+// R12.7: which minifier a response gets does not depend on how the body is chunked.
+func (c *Ctx) r127(pk *packages.Package) {
+	const rule = "R12.7"
+	c.R.Rule(rule, "responseWriter.Write chooses the minifier at the first call; the choice is a function of the headers and the request path only. No value stored into w.mediatype, and no argument of the M.Match call, depends on the chunk parameter of Write (through calls, slicing or locals): otherwise `Write(\"\")` followed by the document, or a first chunk that ends inside a signature, selects a different minifier than one Write of the whole body (content sniffing with http.DetectContentType on the first chunk)")
+	info := pk.TypesInfo
+	fd := c.fn(rule, pk, "responseWriter.Write")
+	if fd == nil {
+		return
+	}
+	var param types.Object
+	if len(fd.Type.Params.List) == 1 && len(fd.Type.Params.List[0].Names) == 1 {
+		param = info.Defs[fd.Type.Params.List[0].Names[0]]
+	}
+	if param == nil {
+		c.R.Unres(rule, "minify.responseWriter.Write/chunk parameter", c.pos(fd), "parameter not found")
+		return
+	}
+	// locals tainted by the chunk (fixpoint over := / = assignments)
+	tainted := map[types.Object]bool{param: true}
+	mentions := func(e ast.Node) bool {
+		return flow.Contains(e, func(q ast.Node) bool {
+			id, ok := q.(*ast.Ident)
+			return ok && tainted[info.Uses[id]]
+		})
+	}
+	for changed := true; changed; {
+		changed = false
+		ast.Inspect(fd.Body, func(x ast.Node) bool {
+			as, ok := x.(*ast.AssignStmt)
+			if !ok {
+				return true
+			}
+			for i, l := range as.Lhs {
+				id, isId := l.(*ast.Ident)
+				if !isId {
+					continue
+				}
+				o := info.Defs[id]
+				if o == nil {
+					o = info.Uses[id]
+				}
+				if o == nil || tainted[o] {
+					continue
+				}
+				rhs := as.Rhs[0]
+				if len(as.Rhs) == len(as.Lhs) {
+					rhs = as.Rhs[i]
+				}
+				if mentions(rhs) {
+					tainted[o] = true
+					changed = true
+				}
+			}
+			return true
+		})
+	}
+	var bad []string
+	n := 0
+	ast.Inspect(fd.Body, func(x ast.Node) bool {
+		switch e := x.(type) {
+		case *ast.AssignStmt:
+			for i, l := range e.Lhs {
+				if isField(info, l, rwT, "mediatype") {
+					n++
+					rhs := e.Rhs[0]
+					if len(e.Rhs) == len(e.Lhs) {
+						rhs = e.Rhs[i]
+					}
+					if mentions(rhs) {
+						bad = append(bad, "w.mediatype = "+str(rhs)+" at "+c.pos(e))
+					}
+				}
+			}
+		case *ast.CallExpr:
+			if calleeName(info, e) == load.Mod+".(M).Match" {
+				n++
+				for _, a := range e.Args {
+					if mentions(a) {
+						bad = append(bad, "Match("+str(a)+") at "+c.pos(e))
+					}
+				}
+			}
+		}
+		return true
+	})
+	c.R.Check(len(bad) == 0 && n > 0, rule, "minify.responseWriter.Write/minifier choice independent of the chunk", c.pos(fd), fmt.Sprintf("%d site(s), none derived from the chunk", n), "the media type used to choose the minifier is derived from the first chunk of the body ("+strings.Join(bad, "; ")+"): the same body written in other pieces gets another minifier")
 }
